@@ -12,9 +12,9 @@ func four(a, b string, c bool) (int, int, string, string) {
 	}
 	return 3, 4, b, a
 }
-func mx(a, b, c int) int  { return max(a, b, c) }
-func mn(a, b, c int) int  { return min(a, b, c) }
-func mx2(a, b int) int    { return max(a, b) }
+func mx(a, b, c int) int   { return max(a, b, c) }
+func mn(a, b, c int) int   { return min(a, b, c) }
+func mx2(a, b int) int     { return max(a, b) }
 func conv(a string) []byte { return []byte(a + "x") }
 func phi(a, b string, c bool) string {
 	x := a
@@ -45,8 +45,8 @@ func clos(a string) func() string {
 func callarg(a string) {
 	fmt.Println(a[1:])
 }
-func field(t T) string { return t.A }
-func idx(a []string, i int) string { return a[i] }
+func field(t T) string                            { return t.A }
+func idx(a []string, i int) string                { return a[i] }
 func lookup(m map[string]string, k string) string { return m[k] }
 func rng(m map[string]string) string {
 	for k, v := range m {
@@ -54,9 +54,9 @@ func rng(m map[string]string) string {
 	}
 	return ""
 }
-func close(x string) string { return x }
+func close(x string) string  { return x }
 func shadow(a string) string { return close(a) }
-func errs(e error) string { return e.Error() }
+func errs(e error) string    { return e.Error() }
 func deferred(a string) {
 	defer fmt.Println(a)
 	fmt.Println("x")
@@ -79,8 +79,8 @@ func recvSecond(c chan string) string {
 	return ""
 }
 func pairCh(c chan string) (int, chan string) { return 1, c }
-func mk(a string) func() string { return func() string { return a } }
-func mkUnused(a string) { mk(a) }
+func mk(a string) func() string               { return func() string { return a } }
+func mkUnused(a string)                       { mk(a) }
 func deferMulti(p *T, c bool) {
 	if c {
 		return
@@ -99,7 +99,34 @@ func bind(a string) func() string {
 	return func() string { return b }
 }
 
+// invoke calls of interface methods named like builtins / Error WITH arguments: ordinary calls, must have call nodes
+type Logger interface {
+	Error(m string)
+	Errorf(m string) string
+	close(x string) string
+	len(x string) int
+	append(x string) string
+}
+type logT struct{ last string }
+
+func (l *logT) Error(m string)         { l.last = m }
+func (l *logT) Errorf(m string) string { return m }
+func (l *logT) close(x string) string  { return x }
+func (l *logT) len(x string) int       { return len(x) }
+func (l *logT) append(x string) string { return l.last + x }
+func logErr(r Logger, m string)        { r.Error(m + "!") }
+func logAll(r Logger, m string) (string, int) {
+	a := r.close(m + "a")
+	b := r.len(m)
+	c := r.append(a)
+	return c + r.Errorf(m), b
+}
+
 func main() {
+	lg := &logT{}
+	logErr(lg, "x")
+	fmt.Println(logAll(lg, "y"))
+
 	fmt.Println(okOnly(), recvSecond(nil), bind("a")(), (&F{}).Close())
 	mkUnused("a")
 	deferMulti(&T{}, false)
